@@ -21,7 +21,7 @@ class ModelFailure(Exception):
 
 
 class Scenario:
-    __slots__ = ("name", "lines", "modes", "pred", "tags", "meta")
+    __slots__ = ("name", "lines", "modes", "pred", "tags", "meta", "impl_out", "w")
 
     def __init__(self, name, tags=()):
         self.name = name
@@ -30,6 +30,8 @@ class Scenario:
         self.pred = None       # f(outputs:list[str], scenario) -> None | str | ("known", id, text)
         self.tags = tuple(tags)
         self.meta = {}
+        self.impl_out = None
+        self.w = None
 
     def op(self, line, mode=EXACT):
         self.lines.append(line)
